@@ -749,6 +749,11 @@ func (u *UnitGen) anchoredAsserts(fr *Frame, st *State, file string, line int) {
 		env := fr.env.withState(st)
 		env.fr = fr
 		v := env.eval(gu.E)
+		if _, declared := u.g.specs.GhostVars[gu.Var]; declared {
+			// update of a declared ghost variable (part of the unit's state: framed, havoced by loops)
+			u.setDef(st, "G:"+gu.Var, v.T)
+			continue
+		}
 		gk := "GL:" + gu.Var
 		u.varSort[gk] = v.T.Sort
 		u.ghostLocals[gu.Var] = Val{Ty: v.Ty, isDom: v.isDom, KeyTy: v.KeyTy}
